@@ -702,6 +702,149 @@ def validate_admission(ctx: Ctx, n_cases: int) -> int:
     return n_eval
 
 
+# ---- long strings: factor-wise oracle (no dense matrix of the whole string) -----------------------------------
+LENGTHS = [1, 2, 31, 32, 33, 63, 64, 65, 127, 128, 129, 200, 255, 256, 257, 1000]
+_IMAGES: dict = {}
+
+
+def image_table():
+    """(kind, ids on the gate's wires [controls then targets]) -> (ids of the image, sign), computed here from the oracle's
+    dense 2x2 / 4x4 gate matrices (not from the library's tables): U·P_W·U† = sign·P'_W for every Pauli P_W on the wires"""
+    import numpy as np
+
+    from oracle import dense
+
+    if _IMAGES:
+        return _IMAGES
+    for kind in CLIFF1 + CLIFF2:
+        k = 1 if kind in CLIFF1 else 2
+        u = dense.local_matrix(kind)
+        basis = _pauli_basis(k)
+        all_ids = list(itertools.product(range(4), repeat=k))
+        for ids in all_ids:
+            a = u @ dense.pauli_matrix_local(list(ids)) @ u.conj().T
+            coef = np.einsum("pij,ji->p", basis, a) / (1 << k)
+            j = int(np.argmax(np.abs(coef)))
+            sgn = 1 if coef[j].real > 0 else -1
+            if float(np.max(np.abs(a - sgn * basis[j]))) > 1e-12:
+                raise RuntimeError(f"oracle: {kind} does not map {ids} to a signed Pauli string")
+            _IMAGES[(kind, ids)] = (all_ids[j], sgn)
+    return _IMAGES
+
+
+def expected_factorwise(kind, cl, tl, pairs):
+    """tensor-factor semantics: the gate acts on its wires only, so the image is (image of the restriction to the wires,
+    from image_table) ⊗ (every other factor unchanged)"""
+    wires = cl + tl
+    d = dict(pairs)
+    ids, sgn = image_table()[(kind, tuple(d.get(q, 0) for q in wires))]
+    out = {i: p for i, p in pairs if i not in wires}
+    for q, p in zip(wires, ids):
+        if p:
+            out[q] = p
+    return sorted(out.items()), sgn
+
+
+def judge_factorwise(ctx, kind, cl, tl, pairs, gate, label, how):
+    from quri_parts.core.operator.conjugation import clifford_gate_conjugation
+
+    def short(ps):
+        ps = list(ps)
+        return ps if len(ps) <= 12 else ps[:6] + ["..."] + ps[-3:]
+
+    wires = cl + tl
+    inp = {"gate": kind, "controls": cl, "targets": tl, "n_factors": len(pairs), "layout": how,
+           "label_on_gate_qubits": [(i, p) for i, p in pairs if i in wires], "label": short(sorted(pairs))}
+    try:
+        res, coef = clifford_gate_conjugation(gate, label)
+    except Exception as e:  # noqa: BLE001
+        ctx.witness("conj-raises:" + kind, f"Clifford gate {kind} rejected on a {len(pairs)}-factor string: {type(e).__name__}", inp)
+        return
+    try:
+        out = sorted((int(i), int(p)) for i, p in res)
+        c = complex(coef)
+    except Exception as e:  # noqa: BLE001
+        ctx.witness("conj:" + kind, f"result is not a (Pauli label, number) pair: {type(e).__name__}", inp)
+        return
+    exp, sgn = expected_factorwise(kind, cl, tl, pairs)
+    if out != exp or c != sgn:
+        eo, oo = dict(exp), dict(out)
+        diff = sorted(q for q in set(eo) | set(oo) if eo.get(q, 0) != oo.get(q, 0))
+        ctx.witness("conj:" + kind,
+                    f"{len(pairs)}-factor string: U P U† = {sgn:+d}·P'' with {len(exp)} factors, returned c={coef} and {len(out)} factors; "
+                    f"they differ on {len(diff)} qubits, first {diff[:5]} (expected {[eo.get(q, 0) for q in diff[:5]]}, returned {[oo.get(q, 0) for q in diff[:5]]})",
+                    dict(inp, returned_n_factors=len(out), returned_on_gate_qubits=[(i, p) for i, p in out if i in wires], returned_coef=str(coef)))
+
+
+def long_layout(rng, L, layout):
+    """L distinct qubit indices and a pool of candidate gate qubits inside / outside them"""
+    if layout == "contiguous":
+        base = rng.choice([0, 0, 1, 2**32 - L // 2, 2**63 - L // 2])
+        idx = list(range(base, base + L))
+    elif layout == "scattered":
+        idx = rng.sample(range(4 * L + 8), L)
+    else:  # huge: anywhere below 2^64 plus a few beyond
+        s = set()
+        while len(s) < L:
+            s.add(rng.randrange(0, 2**64) if rng.random() < 0.9 else rng.randrange(2**64, 2**70))
+        idx = list(s)
+    return idx
+
+
+def validate_lengths(ctx: Ctx) -> int:
+    """LENGTH thresholds: strings with 1 … 1000 factors × every supported gate kind incl. Identity × placements (both
+    control/target orders; gate qubits inside, partly inside, outside the string), contiguous / scattered / huge indices"""
+    from quri_parts.core.operator import PauliLabel
+
+    rng = ctx.rng
+    n_eval = 0
+    if ctx.quick():
+        # sparse: always the power-of-two neighbourhoods 63–65 and one rotating pick of each other band
+        lengths = [rng.choice([1, 2]), rng.choice([31, 32, 33]), 63, 64, 65, rng.choice([127, 128, 129]), rng.choice([200, 255]), rng.choice([256, 257])]
+        big = [(1000, k) for k in ["Identity", rng.choice(CLIFF1[:-1]), rng.choice(CLIFF2)]]
+        reps = 1
+    else:
+        lengths = [x for x in LENGTHS if x < 1000]
+        big = [(1000, k) for k in CLIFF1 + CLIFF2]
+        reps = 3
+    plan = [(L, k) for L in lengths for k in CLIFF1 + CLIFF2] * reps + big
+    for it, (L, kind) in enumerate(plan):
+        layout = ["contiguous", "scattered", "huge"][(it + L) % 3] if L < 1000 else rng.choice(["contiguous", "scattered"])
+        idx = long_layout(rng, L, layout)
+        pairs = [(i, rng.randint(1, 3)) for i in idx]
+        rng.shuffle(pairs)
+        outside = [q for q in (max(idx) + 1, max(idx) + 7, 0, 5) if q not in set(idx) and q < 2**64]
+        inside = [q for q in rng.sample(idx, min(len(idx), 4)) if q < 2**64]
+        modes = ["in", "out"] if kind in CLIFF1 else ["in-in", "in-in-rev", "in-out", "out-in", "out-out"]
+        if ctx.quick() and L >= 200:
+            modes = [rng.choice(modes)] if kind != "Identity" else modes
+        try:
+            label = PauliLabel(pairs)
+        except Exception:  # noqa: BLE001
+            continue
+        for mode in modes:
+            try:
+                if kind in CLIFF1:
+                    qs = [inside[0]] if mode == "in" else [outside[0]]
+                elif mode in ("in-in", "in-in-rev"):
+                    if len(inside) < 2:
+                        continue
+                    qs = sorted(inside[:2], reverse=(mode == "in-in-rev"))
+                elif mode == "in-out":
+                    qs = [inside[0], outside[0]]
+                elif mode == "out-in":
+                    qs = [outside[0], inside[0]]
+                else:
+                    qs = outside[:2]
+                gate, cl, tl = make_gate(kind, qs + [0], rng)
+            except Exception:  # noqa: BLE001
+                continue
+            n_eval += 1
+            ctx.count("long_strings", f"L={L}")
+            judge_factorwise(ctx, kind, cl, tl, pairs, gate, label, f"{layout}/{mode}")
+    return n_eval
+
+
 def validate(ctx: Ctx, budget_s: float):
     """U P U† = c P' with c = ±1 on the real code, dense matrices, n ≤ 5"""
     import time
@@ -754,9 +897,12 @@ def validate(ctx: Ctx, budget_s: float):
             ctx.witness("non-clifford-accepted:" + kind, f"{kind}: unexpected {type(e).__name__}", {"gate": kind})
     n_forms = validate_forms(ctx, budget_s * 0.5)
     n_adm = validate_admission(ctx, ctx.n(1500, 15000) * (1 if budget_s < 20 or not ctx.quick() else 3))
-    n_eval += n_forms + n_adm
+    with ctx.timed("long_strings"):
+        n_long = validate_lengths(ctx)
+    n_eval += n_forms + n_adm + n_long
     ctx.evaluations += n_eval
-    ctx.extra["oracle_validation"] = {"evaluations": n_eval, "forms_histories_wide_indices": n_forms, "admission_any_gate_special_parameters": n_adm}
+    ctx.extra["oracle_validation"] = {"evaluations": n_eval, "forms_histories_wide_indices": n_forms, "admission_any_gate_special_parameters": n_adm,
+                                      "long_strings_factorwise": n_long}
     ctx.search_budget_s = budget_s
 
 
